@@ -36,6 +36,28 @@ type raceAccess struct {
 	IsMap bool   // the access itself is a runtime map operation
 	Top   string // innermost frame of all
 	Lost  bool   // the detector could not restore this side's stack
+	// which class of object the access can concern, read off the stack:
+	InitAuth bool // below internal/authorize.initAuth: the FIRST request of an authorization (GET/POST /authorize). Every session it
+	// handles is private to the request until it saves it - a new one, or a COPY of the pushed one
+	Cold bool // below main.c20Cold*: a first request against a provider with static clients only (suite_c20cold.go)
+}
+
+// c20Qualify: the object class a WRITE site concerns, where the stack tells.  The writers of sessions (internal/authorize,
+// the setters of goidc.AuthnSession the policy calls) below initAuth must be working on a private session: such a write
+// in a race report is named "<site>[initAuth]" - it is NOT the known in-place rewrite of the stored session by the
+// callback.  The writers of clients (goidc.Client methods) in the cold-start phase can only reach STATIC clients, which
+// a request must never write: "<site>[static-client]" - NOT the known write to a client held by the client storage.
+func c20Qualify(a raceAccess) string {
+	if a.Kind != "write" {
+		return ""
+	}
+	switch {
+	case a.InitAuth && (strings.HasPrefix(a.Func, "internal/authorize.") || strings.HasPrefix(a.Func, "pkg/goidc.(*AuthnSession).") || strings.HasPrefix(a.Func, "internal/strutil.")):
+		return "[initAuth]"
+	case a.Cold && (strings.HasPrefix(a.Func, "pkg/goidc.(*Client).") || strings.HasPrefix(a.Func, "internal/oidc.")):
+		return "[static-client]"
+	}
+	return ""
 }
 
 var raceHead = regexp.MustCompile(`^(Previous )?(atomic )?([Rr]ead|[Ww]rite) at 0x[0-9a-f]+ by `)
@@ -76,6 +98,12 @@ func parseRaceReports(txt string) (sigs map[string]string, unnamed int) {
 				if a.Func == "" && strings.HasPrefix(fn, "github.com/luikyv/go-oidc/") && !strings.Contains(fn, "/verifharness") {
 					a.Func = strings.TrimPrefix(fn, "github.com/luikyv/go-oidc/")
 				}
+				if fn == "github.com/luikyv/go-oidc/internal/authorize.initAuth" {
+					a.InitAuth = true
+				}
+				if strings.HasPrefix(fn, "main.c20Cold") {
+					a.Cold = true
+				}
 			}
 			if a.Func == "" && !a.Lost {
 				a.Func = "outside-go-oidc:" + a.Top
@@ -89,7 +117,7 @@ func parseRaceReports(txt string) (sigs map[string]string, unnamed int) {
 			if a.Lost {
 				return "stack-not-restored:" + a.Kind
 			}
-			s := coarseSite(a.Func, a.Kind) + ":" + a.Kind
+			s := coarseSite(a.Func, a.Kind) + c20Qualify(a) + ":" + a.Kind
 			if a.IsMap {
 				s += ":map"
 			}
@@ -173,6 +201,36 @@ func c20Gaps(dist map[string]int) (gaps []string) {
 	for _, o := range c20Outcomes {
 		if dist["outcome/"+o] == 0 {
 			gaps = append(gaps, "outcome:"+o)
+		}
+	}
+	// handler families x profile: the FAPI 1.0 and FAPI 2.0 providers (PAR required, pushed session used alone)
+	for _, p := range c20FapiProfiles {
+		for _, f := range c20FapiFamilies {
+			if dist["handler-concurrent/"+f+"@"+p] == 0 {
+				gaps = append(gaps, "handler:"+f+"@"+p)
+			}
+		}
+		for _, o := range c20FapiOutcomes {
+			i := strings.Index(o, ":")
+			if dist["outcome/"+o[:i]+"@"+p+o[i:]] == 0 {
+				gaps = append(gaps, "outcome:"+o[:i]+"@"+p+o[i:])
+			}
+		}
+	}
+	// cold start: concurrent first requests of static jwks_uri clients against fresh providers
+	for _, f := range []string{"cold-start-token@cold", "cold-start-par@cold", "cold-start-introspect@cold"} {
+		if dist["handler-concurrent/"+f] == 0 {
+			gaps = append(gaps, "handler:"+f)
+		}
+	}
+	for _, o := range []string{"cold-start-token@cold:ok", "cold-start-par@cold:ok", "cold-start-introspect@cold:ok"} {
+		if dist["outcome/"+o] == 0 {
+			gaps = append(gaps, "outcome:"+o)
+		}
+	}
+	for _, k := range []string{"cold-start/rounds-with-2+-fetches-of-jwks_uri", "cold-start/rounds-with-all-first-fetches-in-flight-together"} {
+		if dist[k] < 3 {
+			gaps = append(gaps, "cold-start:"+strings.TrimPrefix(k, "cold-start/"))
 		}
 	}
 	return gaps
@@ -337,8 +395,8 @@ func c20Drive(ctx *RunCtx) {
 		ctx.Meta.Dist[k] = v
 	}
 	ctx.Meta.Extra = map[string]any{"race_signatures": keys, "race_logs": len(logs), "reports_without_a_nameable_side": unnamed,
-		"storage_methods": c20StorageMethods(), "handler_families": c20Families, "coverage_gaps": gaps, "runtime_abort": crashed}
-	ctx.Meta.Rule = "requests served concurrently (2, 4, 8, 16, 16 goroutines in turn, alternately by a provider with and one without refresh-token rotation, each with its default in-memory storage) under the race detector; clients shared between goroutines, private to one, and registered/updated/deleted meanwhile; input_distribution: method/<M> and handler/<F> = invocations of every storage method of the three default managers and of every handler family, *-concurrent/ = those made while a request of another goroutine (for methods: one using the same manager) was in flight, outcome/ = what the requests answered; distinct = distinct race signatures (unordered pair of innermost go-oidc frame function and access kind)"
+		"storage_methods": c20StorageMethods(), "handler_families": c20Families, "handler_families_per_fapi_profile": c20FapiFamilies, "fapi_profiles": c20FapiProfiles, "coverage_gaps": gaps, "runtime_abort": crashed}
+	ctx.Meta.Rule = "requests served concurrently under the race detector, three phases: cold start (fresh providers with static clients only, 2..8 concurrent FIRST requests of static private_key_jwt clients with jwks_uri, first fetches held at the jwks endpoint / free / staggered: cold-start/...), FAPI 1.0 and FAPI 2.0 providers (PAR required, PKCE, private_key_jwt; families and outcomes suffixed @fapi1 / @fapi2), and the OpenID workload (2, 4, 8, 16, 16 goroutines in turn, alternately by a provider with and one without refresh-token rotation), every provider with its default in-memory storage; clients shared between goroutines, private to one, and registered/updated/deleted meanwhile; input_distribution: method/<M> and handler/<F> = invocations of every storage method of the three default managers and of every handler family, *-concurrent/ = those made while a request of another goroutine (for methods: one using the same manager) was in flight, outcome/ = what the requests answered; distinct = distinct race signatures (unordered pair of innermost go-oidc frame function and access kind)"
 	for i, k := range keys {
 		if i < 3 {
 			ctx.Meta.Samples = append(ctx.Meta.Samples, map[string]any{"signature": k, "report": truncate(sigs[k], 1500)})
